@@ -127,6 +127,7 @@ fn events_key(sc: &Scenario, op: &Op, meta: bool) -> String {
         parser: op.parser,
         input: op.input,
         faults: vec![],
+        align: 0,
     };
     full_key(sc, &k)
 }
@@ -225,6 +226,11 @@ fn fp_result<T: std::fmt::Debug + serde::Serialize>(
     r: &cooklang::error::PassResult<T>,
     input: &str,
 ) -> String {
+    // very long inputs (hundreds of KiB): the Debug image alone, which already contains the
+    // recipe and every diagnostic - JSON and two renderings would triple the cost
+    if input.len() > 100_000 {
+        return format!("valid={} has_output={}\nDEBUG {:?}", r.is_valid(), r.has_output(), r);
+    }
     let json = match r.output() {
         Some(o) => serde_json::to_string(o).unwrap_or_else(|e| format!("<json error {e}>")),
         None => "null".into(),
@@ -293,6 +299,7 @@ fn op_ctx(op: &Op, depth: u32) -> OpCtx {
                 });
             }
             Fault::Write { .. } => {}
+            Fault::Stall { seam, n, ms } => ctx.faults.push(SeamFault { seam: *seam, n: *n, action: SeamAction::Stall(*ms) }),
         }
     }
     ctx
@@ -319,6 +326,15 @@ pub struct WriterReport {
 /// post phases) the op's fault list is ignored; keyed variations (callbacks,
 /// truncate, take) always apply.
 pub fn perform(parser: &CooklangParser, input: &str, op: &Op, faults: bool, depth: u32) -> Observed {
+    // the same text at another address: a sub-slice `align` bytes into a fresh buffer
+    let holder;
+    let input: &str = if op.align > 0 {
+        let a = op.align as usize;
+        holder = format!("{}{}", "#".repeat(a), input);
+        &holder[a..]
+    } else {
+        input
+    };
     let ctx = if faults { op_ctx(op, depth) } else { OpCtx { depth, ..Default::default() } };
     sim::push_op(ctx);
     sim::seam(SeamKind::Op);
@@ -642,10 +658,10 @@ fn reference_phase_inner(sc: &Scenario, reverse: bool) -> RefPhase {
         let mut clean = op.clone();
         clean.faults.clear();
         if let Some(meta) = op.uses_adapter().or(matches!(op.kind, OpKind::BuildAst).then_some(false)) {
-            need.push(Op { kind: OpKind::Events { meta, take: None }, parser: op.parser, input: op.input, faults: vec![] });
+            need.push(Op { kind: OpKind::Events { meta, take: None }, parser: op.parser, input: op.input, faults: vec![], align: 0 });
         }
         if let OpKind::Events { meta, take: Some(_) } = &op.kind {
-            need.push(Op { kind: OpKind::Events { meta: *meta, take: None }, parser: op.parser, input: op.input, faults: vec![] });
+            need.push(Op { kind: OpKind::Events { meta: *meta, take: None }, parser: op.parser, input: op.input, faults: vec![], align: 0 });
             continue;
         }
         need.push(clean);
@@ -665,7 +681,13 @@ fn reference_phase_inner(sc: &Scenario, reverse: bool) -> RefPhase {
         }));
         let _ = sim::take_last_panic();
     }
+    // references are taken with the input at the start of its own buffer
+    for op in &mut need {
+        op.align = 0;
+    }
     let second_pass: Vec<Op> = need.iter().rev().cloned().collect();
+    let third_pass: Vec<Op> = need.clone();
+    let fourth_pass: Vec<Op> = need.clone();
     for op in need {
         let key = full_key(sc, &op);
         if env.refs.contains_key(&key) {
@@ -717,6 +739,50 @@ fn reference_phase_inner(sc: &Scenario, reverse: bool) -> RefPhase {
             }
         }
         prev_key = key;
+    }
+    // Third pass with nobody listening to `tracing`: whether a subscriber is interested in the
+    // library's spans and events is ambient state, not input.
+    sim::set_trace(false);
+    let mut seen3 = std::collections::BTreeSet::new();
+    for op in third_pass {
+        let key = full_key(sc, &op);
+        if !seen3.insert(key.clone()) {
+            continue;
+        }
+        let fresh = template_clone(&sc.parsers[op.parser]);
+        cooklang::verif_seam::reseed(crate::rng::mix2(sc.hash_seed ^ 0x3333, seen3.len() as u64));
+        let o = perform(&fresh, &sc.inputs[op.input], &op, false, 0);
+        let fp = match o.outcome {
+            Outcome::Done(s) => s,
+            Outcome::Unwound => "UNWOUND-IN-REFERENCE".into(),
+        };
+        if let Some(first) = env.refs.get(&key) {
+            if *first != fp {
+                sim::violation("ambient-dependence", &key, "reference", format!("the result differs depending on whether a tracing subscriber is interested in the library's spans/events: {}", first_diff(first, &fp)));
+            }
+        }
+    }
+    sim::set_trace(true);
+    // Fourth pass: the same text at another address (a sub-slice 1..7 bytes into a buffer)
+    let mut seen4 = std::collections::BTreeSet::new();
+    for mut op in fourth_pass {
+        let key = full_key(sc, &op);
+        if !seen4.insert(key.clone()) {
+            continue;
+        }
+        op.align = 1 + (fnv(key.as_bytes()) % 7) as u8;
+        let fresh = template_clone(&sc.parsers[op.parser]);
+        cooklang::verif_seam::reseed(crate::rng::mix2(sc.hash_seed ^ 0x4444, seen4.len() as u64));
+        let o = perform(&fresh, &sc.inputs[op.input], &op, false, 0);
+        let fp = match o.outcome {
+            Outcome::Done(s) => s,
+            Outcome::Unwound => "UNWOUND-IN-REFERENCE".into(),
+        };
+        if let Some(first) = env.refs.get(&key) {
+            if *first != fp {
+                sim::violation("address-dependence", &key, "reference", format!("the same text handed over {} byte(s) into a buffer gives a different result: {}", op.align, first_diff(first, &fp)));
+            }
+        }
     }
     let violations = sim::with(|s| std::mem::take(&mut s.violations));
     let ref_keys = env.refs.len();
